@@ -21,14 +21,6 @@ def parseOp (s : String) : Option Op :=
   | ["recvbad", k] => do pure (.recvBad (← parseKey k))
   | _ => none
 
-def snapP (l : Snap) : PSnap := l.map (fun r => (r.fromO, r.toO))
-def storeP (s : Store) : PMap := sortByKey (s.map (fun kv => (kv.1, snapP kv.2)))
-
-def outObs : Out → ObsOut
-  | .bcast ok bs => .bc ok (sortByKey (bs.map (fun b => (b.1, snapP b.2))))
-  | .got r => .got (r.map (fun q => (q.fromO, q.toO)))
-  | .unit => .unit
-
 def renderOut : ObsOut → String
   | .bc ok m => (if ok then "ok " else "err ") ++ showMap m
   | .got none => "G none"
@@ -57,11 +49,6 @@ def parseObs (s : String) : Option (List ObsOut × Final) :=
     let fc ← (kvGet toks "Blast") >>= parseMap
     pure (outs, ⟨fa, fb, fc⟩)
   | _ => none
-
-def modelRun (ops : List Op) : List ObsOut × Final :=
-  let (s, outs) := run [] ops
-  let bs := allBcasts outs
-  (outs.map outObs, ⟨storeP s, storeP (recvAll [] bs), storeP (recvAll [] (latestPerKey bs))⟩)
 
 def opTag : Op → Out → List String
   | .add .., .bcast _ [(_, l)] => [if l.length > 1 then "add-multi" else "add"]
